@@ -168,6 +168,19 @@ def rule_clone(repo):
     res.inst({'function': f.fq, 'delegates': ok}, f.fq)
     if not ok:
         res.add(Finding('C05.CLONE', f, '__add__ must delegate to self.add', construct='__add__'))
+    # the augmented form: `X += a` is the operator spelling of add_.  Without an __iadd__ of its own the class inherits torch.Tensor.__iadd__, the
+    # element-wise sum of the raw coordinates - a non-unit quaternion for an increment of the storage width, a size error for the algebra width
+    ci = repo.cls(LT, 'LieTensor')
+    has = 'add_' in ci.methods and '__add__' in ci.methods
+    ia = ci.methods.get('__iadd__')
+    okia = False
+    if ia is not None:
+        okia = any(isinstance(v, ast.Call) and dotted(v.func) == 'self.add_' for r, v in returned_calls(ia))
+    res.inst({'class': ci.fq, '__iadd__ delegates to add_': okia}, (ci.fq, '__iadd__'))
+    if has and not okia:
+        res.add(Finding('C05.CLONE', ia if ia is not None else f, 'LieTensor overrides + (retraction) and add_ but %s: `X += a` is torch.Tensor.__iadd__, the element-wise '
+                        'sum of the raw coordinates, not Exp(a) @ X' % ('its __iadd__ does not delegate to add_' if ia is not None else 'defines no __iadd__'),
+                        construct='__iadd__'))
     return res
 
 
@@ -292,10 +305,11 @@ def rules(repo, tier):
     from ..optional import rule_optional
     from ..mode import mode_rules
     from ..callsig import rule_callsig
+    from ..docsig import rule_docsig
     from ..axisdefault import rule_axisdefault
     return list(_rules_core(repo, tier)) + [rule_memo(repo, 'C05.MEMO', 'history independence: nothing computed from the contents of a tensor argument is kept '
                                                       'under the identity, address or version of that tensor, in module-level storage, or published from a generator '
                                                       'before it is complete - a later call with the same object and other contents must not be answered from it',
                                                       ['pypose.lietensor.lietensor', 'pypose.lietensor.operation', 'pypose.lietensor.basics', 'pypose.lietensor.utils'], floor=3),
-            rule_optional(repo, 'C05.OPT', ['pypose.lietensor.lietensor', 'pypose.lietensor.operation', 'pypose.lietensor.basics', 'pypose.lietensor.utils'])] + mode_rules(repo, 'C05', ['pypose.lietensor.lietensor', 'pypose.lietensor.operation', 'pypose.lietensor.basics', 'pypose.lietensor.utils']) + [rule_callsig(repo, 'C05.SIG', ['pypose.lietensor.lietensor', 'pypose.lietensor.operation', 'pypose.lietensor.basics', 'pypose.lietensor.utils'])] + [
+            rule_optional(repo, 'C05.OPT', ['pypose.lietensor.lietensor', 'pypose.lietensor.operation', 'pypose.lietensor.basics', 'pypose.lietensor.utils'])] + mode_rules(repo, 'C05', ['pypose.lietensor.lietensor', 'pypose.lietensor.operation', 'pypose.lietensor.basics', 'pypose.lietensor.utils']) + [rule_callsig(repo, 'C05.SIG', ['pypose.lietensor.lietensor', 'pypose.lietensor.operation', 'pypose.lietensor.basics', 'pypose.lietensor.utils']), rule_docsig(repo, 'C05.DOC', ['pypose.lietensor.lietensor', 'pypose.lietensor.operation', 'pypose.lietensor.basics', 'pypose.lietensor.utils'])] + [
             rule_axisdefault(repo, 'C05.AXDEF', ['pypose.lietensor.lietensor', 'pypose.lietensor.operation', 'pypose.lietensor.basics', 'pypose.lietensor.utils', 'pypose.lietensor.convert', 'pypose.basics.ops'])]
